@@ -83,14 +83,15 @@ def tval(x):
 
 
 def pyval(v):
+    """type (exact class, so that np.float64 vs float is visible) and value"""
     if isinstance(v, bool):
-        return [s_("bool"), int(v)]
+        return [tname(v), int(v)]
     if isinstance(v, int):
-        return [s_("int"), v]
+        return [tname(v), int(v)]
     if isinstance(v, float):
-        return [s_("float"), fbits(v)]
+        return [tname(v), fbits(v)]
     if isinstance(v, str):
-        return [s_("str"), s_(v)]
+        return [tname(v), s_(str(v))]
     return [tname(v), s_(repr(v))]
 
 
@@ -131,7 +132,7 @@ def wfm_obs(w):
         o.append([w.signal_count, [s_(w.signals[i].name) for i in range(w.signal_count)],
                   [w.signals[i].column_index for i in range(w.signal_count)]])
     if k == "S":
-        o.append([fbits(w.start_frequency), fbits(w.frequency_increment)])
+        o.append([pyval(w.start_frequency), pyval(w.frequency_increment)])
     return o
 
 
@@ -335,6 +336,8 @@ def build_direct(d):
         kw["frequency_increment"] = d.get("df", 0.0)
     dk = "data" if kind in "DS" else "raw_data"
     w = cls(**{dk: buf}, start_index=pre, sample_count=len(vals), **kw)
+    if kind == "S" and d.get("set_f") is not None:
+        w.start_frequency, w.frequency_increment = d["set_f"]
     if kind == "D" and d.get("names") is not None:
         w.extended_properties["NI_LineNames"] = d["names"]
         for i in d.get("read_names", []):
@@ -427,6 +430,9 @@ def _mk_value(c):
         return arr
     if k == "scalar":
         v = PVALS[c["v"]]
+        if c.get("np"):
+            import numpy as np
+            v = {"f64": np.float64(1.5), "str": np.str_("abc"), "f64z": np.float64(0.0)}[c["np"]]
         return Scalar(v, c["units"], extended_properties=mk_props(c["p"])) if c["units"] is not None else Scalar(v, extended_properties=mk_props(c["p"]))
     if k == "vec":
         vec = Vector([], c["units"], value_type=c18.TYPES[c["t"]], extended_properties=mk_props(c["p"]))
@@ -597,6 +603,9 @@ def _direct_desc(rng, kind=None):
     if kind == "S":
         d["f0"] = rng.choice([0.0, 1.5, -2.0, 1e9])
         d["df"] = rng.choice([0.0, 0.25, 1e-9])
+        if rng.random() < 0.5:
+            # members assigned through the setters after construction: ints, negative increments, zeros
+            d["set_f"] = [rng.choice([5, 0, -3, 2.5, 1e6]), rng.choice([-250.0, -1, 0, 10, 0.125])]
     if kind == "D" and rng.random() < 0.7:
         k = rng.choice([0, 1, max(ncols - 1, 0), ncols, ncols, ncols + 2])
         d["names"] = rng.choice([", ", ",", " , "]).join(rng.choice(["a", "b", "clk", " d ", "", "p0"]) + str(j) for j in range(k))
@@ -645,7 +654,8 @@ def gen_cases(rng, tier):
         ops = [c17._rand_op(rng, n, edge) for _ in range(rng.choice([0, 1, 3, 6]))]
         cases.append({"k": "tarr", "dt": dtf, "init": init, "ops": ops, "m": meth()})
     for i in range(120 if not big else 1500):
-        cases.append({"k": "scalar", "v": rng.randrange(len(PVALS)), "units": rng.choice([None, "", "V", "é"]), "p": [x for x in _props_desc(rng) if x[0] != "NI_UnitDescription"], "m": meth()})
+        cases.append({"k": "scalar", "v": rng.randrange(len(PVALS)), "units": rng.choice([None, "", "V", "é"]), "p": [x for x in _props_desc(rng) if x[0] != "NI_UnitDescription"], "m": meth(),
+                      "np": rng.choice([None, None, None, "f64", "str", "f64z"])})
     for i in range(300 if not big else 5000):
         t = rng.choice(["TBool", "TInt", "TInt", "TFloat", "TStr"])
         init = [c18._val_of(rng, t) for _ in range(rng.choice([0, 1, 2, 3]))]
